@@ -194,6 +194,78 @@ def sweep(h, desc, vals, fn, budget, quick):
                 col = cols[ci]
                 args[i] = col[j % len(col)] if j < len(col) or ci else col[j % len(col)]
             out.append((kinds, args))
+    out += corner_pairs(vals, fn, kinds, names, zhint=26)
+    return out
+
+
+def corner_pairs(vals, fn, kinds, names, zhint=26):
+    """pairwise covering block: a handful of corner values per argument (invalid, zero, boundary, typical; the Miller triple counts as one
+    argument so that (0,0,0) meets every corner of the others), rows chosen greedily until every pair of corners of two different arguments
+    occurs together at least once.  The main sweep zips its continuous columns, so two special values meet there only by chance."""
+    r = vals.rng
+    slots = []      # (positions, [value tuples])
+    i = 0
+    while i < len(kinds):
+        p = (names[i] or "").lower()
+        k = kinds[i]
+        if k == "i" and p.endswith("_miller") and i + 2 < len(kinds) and (names[i + 2] or "").lower().endswith("_miller"):
+            slots.append(((i, i + 1, i + 2), [(0, 0, 0), (1, 1, 1), (-2, 0, 6), (0, 0, 1)]))
+            i += 3
+            continue
+        if k == "i":
+            s = [v for v in vals.ints(names[i], fn, True) if v not in (INT_MIN, INT_MAX)]
+            c = {s[0], s[-1], INT_MIN}
+            if 0 in s:
+                c.add(0)
+            if p == "z":
+                c |= {1, zhint, 92, 99}
+            c |= set(r.sample(s, min(len(s), 3)))
+            slots.append(((i,), [(v,) for v in sorted(c)]))
+        elif k == "d":
+            corners = {"e": [-1.0, 0.0, 1e-300, 0.05, 8.0, 90.0, 1e300], "theta": [0.0, PI / 2, 2.5, -1.0], "phi": [0.0, PI / 2, 2.5], "q": [-1.0, 0.0, 0.5, 1e300],
+                       "pz": [-1.0, 0.0, 0.5, 1e300], "density": [-1.0, 0.0, 2.5], "debye_factor": [-1.0, 0.0, 1.0, 0.5], "rel_angle": [0.0, 1.0, -1.0, 0.5]}
+            key = "e" if p in ("e", "e0", "energy") else p
+            vs = corners.get(key) or vals.doubles(names[i], fn, zhint, 3)[:3]
+            slots.append(((i,), [(v,) for v in vs]))
+        elif k == "s":
+            col = vals.strings(names[i], fn, 6)
+            good = [x for x in col if x][:2]
+            slots.append(((i,), [(v,) for v in [None, ""] + good + [x for x in col if x and x not in good][-1:]]))
+        elif k == "crystal":
+            col = vals.crystals(3)
+            slots.append(((i,), [(v,) for v in ["cNULL", col[0], col[-1]]]))
+        else:
+            return []
+        i += 1
+    if len(slots) < 2:
+        return []
+    need = set()
+    for a in range(len(slots)):
+        for b in range(a + 1, len(slots)):
+            for x in range(len(slots[a][1])):
+                for y in range(len(slots[b][1])):
+                    need.add((a, x, b, y))
+    rows = []
+    while need and len(rows) < 400:
+        best, bestc = None, -1
+        seedpair = next(iter(need))
+        for _ in range(25):
+            row = [r.randrange(len(s[1])) for s in slots]
+            row[seedpair[0]], row[seedpair[2]] = seedpair[1], seedpair[3]
+            c = sum(1 for a in range(len(slots)) for b in range(a + 1, len(slots)) if (a, row[a], b, row[b]) in need)
+            if c > bestc:
+                best, bestc = row, c
+        for a in range(len(slots)):
+            for b in range(a + 1, len(slots)):
+                need.discard((a, best[a], b, best[b]))
+        rows.append(best)
+    out = []
+    for row in rows:
+        args = [None] * len(kinds)
+        for s, x in zip(slots, row):
+            for pos, v in zip(s[0], s[1][x]):
+                args[pos] = v
+        out.append((kinds, args))
     return out
 
 
